@@ -1024,15 +1024,11 @@ bool Builder::FinishCommand(BuildResult::CommandCompleted& result,
   if (!rspfile.empty() && !g_keep_rsp && !config_.dry_run)
     disk_interface_->RemoveFile(rspfile);
 
-  if (scan_.build_log()) {
-    if (!scan_.build_log()->RecordCommand(
-            edge, static_cast<int>(start_time_millis),
-            static_cast<int>(end_time_millis), record_mtime)) {
-      *err = string("Error writing to build log: ") + strerror(errno);
-      return false;
-    }
-  }
-
+  // Record the dependencies before the command: if ninja dies between the two
+  // appends, the next build finds no valid record of this command and runs it
+  // again.  The other way round, a restat command that left its output
+  // untouched would be considered done while the old dependency list, which
+  // still matches the output's mtime, stays trusted.
   if (!deps_type.empty() && !config_.dry_run) {
     assert(!edge->outputs_.empty() && "should have been rejected by parser");
     for (std::vector<Node*>::const_iterator o = edge->outputs_.begin();
@@ -1044,6 +1040,15 @@ bool Builder::FinishCommand(BuildResult::CommandCompleted& result,
         *err = std::string("Error writing to deps log: ") + strerror(errno);
         return false;
       }
+    }
+  }
+
+  if (scan_.build_log()) {
+    if (!scan_.build_log()->RecordCommand(
+            edge, static_cast<int>(start_time_millis),
+            static_cast<int>(end_time_millis), record_mtime)) {
+      *err = string("Error writing to build log: ") + strerror(errno);
+      return false;
     }
   }
   return true;
